@@ -184,4 +184,120 @@ theorem platRaw_perdev (c : Cfg) (fn : Fn) (l : Listing) :
   have : ∀ l : Listing, l.filter (fun _ => true) = l := fun l => List.filter_eq_self.mpr (by simp)
   simp [platRaw, this]
 
+/-! ### ingredients of `C10_present_monotone` (no width / uniqueness hypotheses needed) -/
+
+theorem lookup_outOf (old input : Raw) (rem' : Key → Nat → Nat) (k : Key) :
+    (outOf old input rem').lookup k
+      = (input.lookup k).map fun v =>
+          match old.lookup k with
+          | none => v
+          | some _ => v.mapIdx fun i x => x + rem' k i := by
+  induction input with
+  | nil => rfl
+  | cons a as ih =>
+    obtain ⟨ak, av⟩ := a
+    simp only [outOf, List.map_cons] at ih ⊢
+    by_cases hk : k = ak
+    · subst hk
+      cases ho : old.lookup k <;> simp [List.lookup]
+    · have hb : (k == ak) = false := by simpa using hk
+      have hb' : ∀ x : List Nat, (k == (match old.lookup ak with
+          | none => (ak, av)
+          | some _ => (ak, x)).1) = false := by
+        intro x; cases old.lookup ak <;> simpa using hk
+      cases ho : old.lookup ak with
+      | none => simp only [List.lookup, hb]; exact ih
+      | some o => simp only [List.lookup, hb]; exact ih
+
+theorem lookup_listed (l : Listing) (k : Key) (h : ∃ e ∈ l, e.1 = k) :
+    ∃ o, (l.map fun e => (e.1, e.2.2)).lookup k = some o := by
+  induction l with
+  | nil => obtain ⟨e, he, _⟩ := h; cases he
+  | cons a as ih =>
+    by_cases hk : k = a.1
+    · exact ⟨a.2.2, by simp [hk]⟩
+    · have hb : (k == a.1) = false := by simpa using hk
+      obtain ⟨e, he, hek⟩ := h
+      have : ∃ e ∈ as, e.1 = k := by
+        cases he with
+        | head => exact absurd hek.symm hk
+        | tail _ h' => exact ⟨e, h', hek⟩
+      obtain ⟨o, ho⟩ := ih this
+      exact ⟨o, by simp only [List.map_cons, List.lookup, hb]; exact ho⟩
+
+theorem tupleAt_mapIdx_eq (o : List Nat) (R : Nat → Nat) (i : Nat) (h : i < o.length) :
+    tupleAt (o.mapIdx fun j x => x + R j) i = tupleAt o i + R i := by
+  simp [tupleAt, h]
+
+theorem tupleAt_mapIdx_le (o : List Nat) (R : Nat → Nat) (i : Nat) :
+    tupleAt (o.mapIdx fun j x => x + R j) i ≤ tupleAt o i + R i := by
+  by_cases h : i < o.length
+  · rw [tupleAt_mapIdx_eq o R i h]; exact Nat.le_refl _
+  · simp [tupleAt, h]
+
+theorem shape_true_dict {o : Out} {r : Raw} (h : shape true o = .dict r) : o = .dict r := by
+  cases o <;> simp_all [shape]
+
+/-- what a `nowrap=True` call that returned a dict did -/
+theorem step_call_dict (c : Cfg) (s : St) (n : Name) (raw r : Raw)
+    (h : (step c s (.call n true raw)).2 = .dict r) :
+    r = (run c (s.get (slot c n)) raw).2
+    ∧ (step c s (.call n true raw)).1 = s.set (slot c n) (run c (s.get (slot c n)) raw).1
+    ∧ ∀ old, (s.get (slot c n)).cache = some old → widthMismatch old raw = false := by
+  simp only [step] at h ⊢
+  split at h
+  · cases h
+  · rename_i hne
+    simp only [if_true] at h ⊢
+    cases hc : (s.get (slot c n)).cache with
+    | none =>
+      simp only [hc] at h ⊢
+      split at h
+      · cases h
+      · rename_i hemp
+        have hr : raw ≠ [] := by simpa using hemp
+        simp only [Out.dict.injEq] at h
+        refine ⟨h.symm, ?_, fun old ho => by cases ho⟩
+        simp [hr]
+    | some old =>
+      simp only [hc] at h ⊢
+      split at h
+      · cases h
+      · rename_i hwm
+        split at h
+        · cases h
+        · rename_i hemp
+          have hr : raw ≠ [] := by simpa using hemp
+          simp only [Out.dict.injEq] at h
+          refine ⟨h.symm, ?_, ?_⟩
+          · simp [hr, hwm]
+          · intro o ho
+            simp only [Option.some.injEq] at ho
+            subst ho
+            simpa using hwm
+
+/-- a call on one slot leaves every other slot alone -/
+theorem step_call_get_other (c : Cfg) (s : St) (n m : Name) (nw : Bool) (raw : Raw) (h : m ≠ slot c n) :
+    (step c s (.call n nw raw)).1.get m = s.get m := by
+  simp only [step]
+  split
+  · rfl
+  · split
+    · cases hc : (s.get (slot c n)).cache with
+      | none => simp only []; exact get_set_other _ _ _ _ h
+      | some old =>
+        simp only []
+        split
+        · rfl
+        · exact get_set_other _ _ _ _ h
+    · rfl
+
+theorem frun_append (c : Cfg) (a b : List FOp) : ∀ s, frun c s (a ++ b) = frun c (frun c s a) b := by
+  induction a with
+  | nil => intro s; rfl
+  | cons x xs ih => intro s; simp only [List.cons_append, frun]; exact ih _
+
+theorem run_cache (c : Cfg) (w : WN) (raw : Raw) : (run c w raw).1.cache = some raw := by
+  unfold run; cases w.cache <;> rfl
+
 end Psutil.C10
